@@ -66,7 +66,18 @@ PY = "/venv/bin/python"
 # Genuine defects found by this check and not yet decided (fix in /repo or record in known_findings.json).
 # clause name -> what fails.  The clause names are the hypotheses of the Lean theorems
 # (C18.C18_leaves_partial) and the `clause` field of the fresh-interpreter reports.
-PROVISIONAL_KNOWN = {}   # decided: recorded in /verif/known_findings.json
+# (first-instance-representative was decided: it is recorded in /verif/known_findings.json)
+PROVISIONAL_KNOWN = {
+    "identity-to-mutates-receiver":
+        "cola/ops/operators.py Identity.to(device): `self.device = device; return self` stores the device into the RECEIVER (every "
+        "other kind returns a new operator through flatten/unflatten).  Witness: I = Identity((4, 4), np.float64); I.to('cpu') "
+        "changes I.device from None to 'cpu' and returns I itself.  Found in round 2 when the prose allow-list of in-place sites "
+        "was replaced by analysis: the scanner can establish no reason for this site (`device` is read all over the library) and the "
+        "old prose reason ('the NumPy backend has the single device None') is false.  Lean: the one row of the named-clause list "
+        "(Lemmas/PersistSites.lean allowList, theorem C18_clause_rows).  Patch proposal: "
+        "`def to(self, device): out = Identity(self.shape, self.dtype); out.device = device; return out` (or drop the override: "
+        "LinearOperator.to rebuilds through flatten/unflatten).",
+}
 _FORMERLY_PROVISIONAL = {
     "first-instance-representative":
         "the registry `_dynamic` of a (parametrised) class is fixed by its FIRST instance: `A[i0:i1, :]` and "
@@ -148,6 +159,7 @@ class EnvBase:
         self.snap_arr = {k: snap_array(x) for k, x in a.items()}
         self.snap_ops = {k: snap_op(o) for k, o in self.pool.items()}
         self.partners = {}
+        self.algs, self.snap_algs, self.used_algs = {}, {}, set()
         self.used = set()
         self.produced = []
         self.dirty = False
@@ -168,6 +180,30 @@ class EnvBase:
         if self.arr.touched is not None:     # the partner wraps a caller-owned array (recorded on every use, not only on creation)
             self.arr.touched.add({"dense": f"M{n}", "diag": f"d{n}"}.get(what, "M2"))
         return self.partners[key]
+
+    # Algorithm objects the CALLER owns and passes to several calls (round 2): their attributes (incl. the arrays x0 /
+    # start_vector they carry) are part of what no cola operation may modify
+    def alg(self, what, n):
+        key = ("alg", what, n)
+        if key not in self.algs:
+            if what == "cg":
+                a = cola.CG(x0=self.arr[f"x0{n}"][:, None], max_iters=6, tol=1e-9)     # (n, 1) view of the caller's array:
+            elif what == "gmres":                                                         # the operator is applied to a matrix
+                a = cola.GMRES(x0=self.arr[f"x0{n}"][:, None], max_iters=4, tol=1e-9)
+            elif what == "arnoldi":
+                a = cola.Arnoldi(start_vector=self.arr[f"v{n}"], max_iters=3)
+            elif what == "lanczos_sv":
+                a = cola.Lanczos(start_vector=self.arr[f"v{n}"], max_iters=3)
+            else:
+                a = cola.Lanczos(max_iters=3)
+            self.algs[key] = a
+            self.snap_algs[key] = struct_snap(a)
+        self.used_algs.add(key)
+        if self.arr.touched is not None and what in ("cg", "gmres"):
+            self.arr.touched.add(f"x0{n}")
+        if self.arr.touched is not None and what in ("arnoldi", "lanczos_sv"):
+            self.arr.touched.add(f"v{n}")
+        return self.algs[key]
 
 
 def _kfn(x1, x2):
@@ -424,6 +460,11 @@ def _(env, A, last):
     return A.to(None)
 
 
+@op("to_dev")
+def _(env, A, last):
+    return A.to("cpu")                 # a device move; raises for every kind holding arrays on the NumPy backend (move_to)
+
+
 @op("to_dtype")
 def _(env, A, last):
     return A.to(None, np.float32)      # "dtype change is not supported yet": only the inputs matter here
@@ -481,13 +522,13 @@ def _(env, A, last):
 
 @op("inv_cg")
 def _(env, A, last):
-    Ai = cola.inv(A, cola.CG(x0=env.arr[f"x0{_n(A)}"], max_iters=6, tol=1e-9))
+    Ai = cola.inv(A, env.alg("cg", _n(A)))
     return Ai @ _rhs(env, A, last)
 
 
 @op("inv_gmres")
 def _(env, A, last):
-    Ai = cola.inv(A, cola.GMRES(x0=env.arr[f"x0{_n(A)}"], max_iters=4, tol=1e-9))
+    Ai = cola.inv(A, env.alg("gmres", _n(A)))
     return Ai @ _rhs(env, A, last)
 
 
@@ -542,17 +583,17 @@ def _(env, A, last):
 
 @op("eig_arnoldi")
 def _(env, A, last):
-    return cola.eig(A, 2, "LM", cola.Arnoldi(start_vector=env.arr[f"v{_n(A)}"], max_iters=3))
+    return cola.eig(A, 2, "LM", env.alg("arnoldi", _n(A)))
 
 
 @op("exp_lanczos")
 def _(env, A, last):
-    return cola.exp(A, cola.Lanczos(start_vector=env.arr[f"v{_n(A)}"], max_iters=3)) @ env.arr[f"b{_n(A)}"]
+    return cola.exp(A, env.alg("lanczos_sv", _n(A))) @ env.arr[f"b{_n(A)}"]
 
 
 @op("sqrt_lanczos")
 def _(env, A, last):
-    return cola.sqrt(A, cola.Lanczos(max_iters=3)) @ env.arr[f"B{_n(A)}"]
+    return cola.sqrt(A, env.alg("lanczos", _n(A))) @ env.arr[f"B{_n(A)}"]
 
 
 @op("exp")
@@ -582,6 +623,26 @@ def _explain(s0, s1):
     if s0[1] != s1[1]:
         return "attributes: " + _struct_diff(s0[1], s1[1])
     return "to_dense bytes"
+
+
+def _only_device(s0, s1):
+    """the two snapshots differ in the `device` of the operator itself and in nothing else"""
+    h0, h1 = s0[0], s1[0]
+    if h0[:4] != h1[:4] or h0[4] == h1[4] or s0[2] != s1[2]:
+        return False
+
+    def drop(t):
+        if isinstance(t, tuple) and len(t) == 3 and t[0] == "o":
+            return ("o", t[1], tuple((k, v) for k, v in t[2] if k != "device"))
+        return t
+    return drop(s0[1]) == drop(s1[1])
+
+
+def is_identity_to_clause(small, ff):
+    """exactly the class of the clause identity-to-mutates-receiver: the LAST operation of the shrunk history is the device move,
+    the operator that changed is an Identity, and nothing but its `device` changed"""
+    return bool(ff) and bool(small) and small[-1] == "to_dev" and ff.get("class") == "Identity" and ff.get("only_device") is True \
+        and ff.get("what") in ("pool operator changed", "an operator changed after it was returned to the caller")
 
 
 def _struct_diff(a, b, path=""):
@@ -629,12 +690,17 @@ class Env(EnvBase):
             s0 = self.snap_ops[k]
             s1 = snap_op(o)
             if s1 != s0:
-                diffs.append({"what": "pool operator changed", "operator": str(k), "step": step, "field": _explain(s0, s1)})
+                diffs.append({"what": "pool operator changed", "operator": str(k), "step": step, "field": _explain(s0, s1),
+                              "class": type(o).__name__, "only_device": _only_device(s0, s1)})
+        for k, a in self.algs.items():
+            if struct_snap(a) != self.snap_algs[k]:
+                diffs.append({"what": "caller-owned Algorithm object changed", "operator": str(k), "step": step,
+                              "field": _struct_diff(self.snap_algs[k], struct_snap(a))})
         for label, o, s0 in self.produced:
             s1 = snap_op(o)
             if s1 != s0:
                 diffs.append({"what": "an operator changed after it was returned to the caller", "operator": label,
-                              "step": step, "field": _explain(s0, s1)})
+                              "step": step, "field": _explain(s0, s1), "class": type(o).__name__, "only_device": _only_device(s0, s1)})
         if diffs:
             self.dirty = True
         return diffs
@@ -702,6 +768,87 @@ def run_history(history, kind, env, full_end=False):
     return {"evals": evals, "statuses": statuses, "failures": failures, "touched": touched}
 
 
+def run_tree(prefix, conts, kind, env):
+    """All histories prefix + (c,) for c in conts, sharing the evaluation of the prefix (thorough tier, exhaustive length 3).
+    Exactly the comparisons of `run_history` are made for every one of them — snapshots of everything the caller holds after
+    every operation, the first call repeated after each complete history — the operations of the prefix are merely not
+    re-evaluated for every continuation, which is sound as long as nothing changed (every comparison so far was clean); at the
+    first difference the remaining continuations are run one by one with `run_history` in fresh environments.
+    -> dict(evals, per_history: {history: (statuses, touched)}, failures: [{history, failures}])"""
+    env.reset()
+    A, last = env.pool[kind], None
+    out = {"evals": 0, "per": {}, "failures": []}
+    involved = {kind}
+    statuses, touched, first = [], False, None
+    for step, name in enumerate(prefix):
+        env.used = set()
+        env.arr.touched = set()
+        st, res = apply_op(env, name, A, last)
+        out["evals"] += 1
+        involved |= env.used
+        if st == "ok" and (env.arr.touched or (isinstance(last, np.ndarray) and name in USES_LAST)):
+            touched = True
+        statuses.append(st if st == "ok" else f"na:{res}")
+        if step == 0:
+            first = (st, fingerprint(res) if st == "ok" else res)
+        if st == "ok":
+            for r in (res if isinstance(res, (tuple, list)) else [res]):
+                if isinstance(r, LinearOperator):
+                    env.hold(f"step{step}:{name}", r)
+            r0 = res[0] if isinstance(res, (tuple, list)) and len(res) else res
+            if isinstance(r0, LinearOperator) and len(r0.shape) == 2 and r0.shape[0] == r0.shape[1] and r0.shape[0] in SIZES:
+                A = r0
+            elif isinstance(r0, np.ndarray):
+                last = r0
+        d = env.check(step, involved)
+        if d:
+            # the prefix itself fails: every history of the group fails the same way (reported once, for the prefix)
+            out["failures"].append({"history": list(prefix[:step + 1]), "failures": d})
+            for c in conts:
+                out["per"][tuple(prefix) + (c,)] = (statuses + ["skipped"], touched)
+            return out
+    base = len(env.produced)
+    step = len(prefix)
+    for ci, c in enumerate(conts):
+        h = tuple(prefix) + (c,)
+        env.used = set()
+        env.arr.touched = set()
+        st, res = apply_op(env, c, A, last)
+        out["evals"] += 1
+        inv_c = involved | env.used
+        t_c = touched or (st == "ok" and bool(env.arr.touched or (isinstance(last, np.ndarray) and c in USES_LAST)))
+        if st == "ok":
+            for r in (res if isinstance(res, (tuple, list)) else [res]):
+                if isinstance(r, LinearOperator):
+                    env.hold(f"step{step}:{c}", r)
+        fails = env.check(step, inv_c)
+        if not fails:
+            st2, res2 = apply_op(env, prefix[0], env.pool[kind], None)
+            out["evals"] += 1
+            again = (st2, fingerprint(res2) if st2 == "ok" else res2)
+            if again != first:
+                env.dirty = True
+                fails = [{"what": "repeating the first call gives a different result", "step": step + 1,
+                          "first": _short(first), "again": _short(again)}]
+            else:
+                fails = env.check(step + 1, inv_c)
+        out["per"][h] = (statuses + [st if st == "ok" else f"na:{res}"], t_c)
+        env.produced = env.produced[:base]
+        if fails:
+            out["failures"].append({"history": list(h), "failures": fails})
+            # state may be damaged: the remaining continuations one by one, each in a fresh environment
+            for c2 in conts[ci + 1:]:
+                h2 = tuple(prefix) + (c2,)
+                r = run_history(list(h2), kind, Env(), full_end=True)
+                out["evals"] += r["evals"]
+                out["per"][h2] = (r["statuses"], r["touched"])
+                if r["failures"]:
+                    out["failures"].append({"history": list(h2), "failures": r["failures"]})
+            env.dirty = True
+            return out
+    return out
+
+
 def _short(fp):
     s = repr(fp)
     return s if len(s) < 300 else s[:300] + "..."
@@ -718,9 +865,23 @@ SHORT_ALPHABET = ["matvec", "matmat", "rmatvec", "T", "H", "add", "sub", "smul",
                   "logdet"]
 # `exp` / `inv` return lazily nested operators (V D V^-1, U^-1 L^-1 P^-1); every further operation on them creates new
 # parametrised classes whose dispatch resolution in plum costs 50-300 ms, so they take part in dedicated pairs only
+# the device move takes part in dedicated short histories and in the random long ones
+DEVICE_MOVES = [("to_dev",), ("to_dev", "matvec"), ("matvec", "to_dev"), ("T", "to_dev"), ("to_dev", "flatten")]
 HEAVY = ["exp", "inv"]
 HEAVY_FOLLOW = ["matvec", "flatten", "PSD", "cg"]
 LONG_ALPHABET = [o for o in ALPHABET if o not in ("gmres_tri",) and o not in HEAVY]
+
+# operation kinds (strata of the quick tier's length-3 sample): every operation of the short alphabet belongs to exactly one
+STRATA = {
+    "apply": ["matvec", "matmat", "rmatvec"],
+    "algebra": ["T", "H", "add", "sub", "smul", "prod", "kron", "PSD"],
+    "convert": ["to_dense", "flatten", "to"],
+    "index": ["getitem_ij", "getitem_col", "slice", "index"],
+    "reduce": ["diag", "trace", "logdet"],
+    "solve": ["solve", "inv_cg", "inv_gmres", "cg", "cg_block", "gmres"],
+    "krylov": ["lanczos", "arnoldi", "eig", "exp_lanczos", "sqrt_lanczos"],
+}
+assert sorted(o for v in STRATA.values() for o in v) == sorted(SHORT_ALPHABET), "STRATA must partition SHORT_ALPHABET"
 
 _ENV = None
 
@@ -739,6 +900,31 @@ def _work(chunk):
     global _ENV
     out = {"evals": 0, "runs": 0, "touched": [], "status": {}, "failures": []}
     env = _get_env()
+    if chunk and chunk[0] == "tree":
+        # ("tree", prefix, continuations): the exhaustive length-3 group of one prefix
+        _tag, prefix, conts = chunk
+        hs = [tuple(prefix) + (c,) for c in conts]
+        t_any = {h: False for h in hs}
+        for kind in KINDS:
+            r = run_tree(tuple(prefix), list(conts), kind, env)
+            out["evals"] += r["evals"]
+            out["runs"] += len(conts)
+            for h, (sts, t) in r["per"].items():
+                t_any[h] = t_any[h] or t
+                for name, st in zip(h, sts):
+                    if st != "skipped":
+                        d = out["status"].setdefault(name, [0, 0])
+                        d[0 if st == "ok" else 1] += 1
+            for f in r["failures"]:
+                out["failures"].append({"history": f["history"], "kind": kind, "failures": f["failures"][:3]})
+            if r["failures"] or env.dirty:
+                env = _ENV = Env()
+        out["touched"] = [t_any[h] for h in hs]
+        d = env.check(-1, set(), full=True)
+        if d:
+            env = _ENV = Env()
+            out["failures"].append({"history": [list(h) for h in hs], "kind": "*", "failures": d[:3], "chunk": True})
+        return out
     for h in chunk:
         t_any = False
         for kind in KINDS:
@@ -770,16 +956,34 @@ def _work(chunk):
     return out
 
 
+def _stratum(o):
+    for k, v in STRATA.items():
+        if o in v:
+            return k
+    return "other"
+
+
 def all_histories(ctx):
     rng = random.Random(ctx.seed)
     A = SHORT_ALPHABET
     hs = [(a,) for a in A] + list(itertools.product(A, A))
     hs += [(h,) for h in HEAVY] + [(h, x) for h in HEAVY for x in HEAVY_FOLLOW]
+    hs += DEVICE_MOVES
     n_ex2 = len(hs)
     if ctx.thorough:
-        l3 = list(itertools.product(A, A, A))
+        l3 = list(itertools.product(A, A, A))      # EXHAUSTIVE: every history of length <= 3 over the short alphabet
     else:
-        l3 = sorted({tuple(rng.choice(A) for _ in range(3)) for _ in range(360)})
+        # stratified: one history for every ordered triple of operation KINDS (7^3 = 343), the representative of each kind
+        # drawn at random; every operation of the alphabet is forced to occur in each of the three positions at least once
+        ks = sorted(STRATA)
+        l3 = {tuple(rng.choice(STRATA[k]) for k in kt) for kt in itertools.product(ks, ks, ks)}
+        for pos in range(3):
+            for o in A:
+                if not any(h[pos] == o for h in l3):
+                    h = [rng.choice(A) for _ in range(3)]
+                    h[pos] = o
+                    l3.add(tuple(h))
+        l3 = sorted(l3)
     n_long = 1500 if ctx.thorough else 60
     longs = [tuple(rng.choice(LONG_ALPHABET) for _ in range(rng.randint(4, 8))) for _ in range(n_long)]
     return hs, l3, longs, n_ex2
@@ -812,7 +1016,15 @@ def part_a(ctx, cov):
     # long histories are slower: small chunks, shuffled for balance
     heavy = [h for h in allh if any(o in HEAVY for o in h)]
     light = [h for h in allh if not any(o in HEAVY for o in h)]
-    chunks = [light[i:i + 6] for i in range(0, len(light), 6)]
+    trees = []
+    if ctx.thorough:
+        # exhaustive length 3: one task per prefix (a, b) with all 32 continuations, the prefix evaluated once (run_tree)
+        l3set = set(l3)
+        light = [h for h in light if not (len(h) == 3 and h in l3set)]
+        for a in SHORT_ALPHABET:
+            for b in SHORT_ALPHABET:
+                trees.append(("tree", (a, b), tuple(SHORT_ALPHABET)))
+    chunks = [light[i:i + 6] for i in range(0, len(light), 6)] + trees
     random.Random(ctx.seed).shuffle(chunks)
     chunks = [[h] for h in heavy] + chunks     # slow ones first, one per task
     t0 = time.time()
@@ -827,7 +1039,8 @@ def part_a(ctx, cov):
                 d[0] += v[0]
                 d[1] += v[1]
             agg["failures"].extend(out["failures"])
-            for h, t in zip(chunk, out["touched"]):
+            hs_of_chunk = [tuple(chunk[1]) + (c,) for c in chunk[2]] if chunk and chunk[0] == "tree" else chunk
+            for h, t in zip(hs_of_chunk, out["touched"]):
                 touched[h] = touched.get(h, False) or t
     distinct = {h for h in allh}
     nontrivial = {h for h in distinct if len(h) >= 2 and touched.get(h)}
@@ -839,8 +1052,16 @@ def part_a(ctx, cov):
         "rule": "distinct operation sequences of length >= 2 in which, on at least one pool kind, an applicable operation "
                 "(one that did not raise) was handed at least one caller-owned array (right-hand side, x0, start vector, "
                 "index array, or the array result of an earlier step)",
+        "exhaustive": bool(ctx.thorough),
         "exhaustive_detail": {"alphabet": len(SHORT_ALPHABET), "length_1": len(SHORT_ALPHABET), "length_2": len(SHORT_ALPHABET) ** 2,
-                       "length_3": len(l3), "length_3_all": bool(ctx.thorough)},
+                              "length_3": len(l3), "length_3_all": bool(ctx.thorough), "length_3_total": len(SHORT_ALPHABET) ** 3,
+                              "length_3_kind_triples_covered": len({tuple(_stratum(o) for o in h) for h in l3}),
+                              "length_3_kind_triples_total": len(STRATA) ** 3},
+        "explanation": ("thorough: EXHAUSTIVE over all histories of length <= 3 of the 32-operation alphabet (32 + 32^2 + 32^3), each on "
+                        "every pool kind" if ctx.thorough else
+                        "quick: exhaustive for length <= 2; length 3 is a STRATIFIED sample: one history per ordered triple of operation "
+                        "kinds (apply / algebra / convert / index / reduce / solve / krylov: 7^3 = 343 triples, all covered), and every "
+                        "operation occurs in every position; the thorough tier is exhaustive for length <= 3"),
         "random_long": {"count": len(longs), "length": "4..8", "alphabet": len(LONG_ALPHABET)},
         "alphabet": SHORT_ALPHABET,
         "long_alphabet_extra": [o for o in LONG_ALPHABET if o not in SHORT_ALPHABET],
@@ -871,6 +1092,12 @@ def part_a(ctx, cov):
         if key2 in seen:
             continue
         seen.add(key2)
+        clause = "identity-to-mutates-receiver"
+        if is_identity_to_clause(small, ff or first) and (clause in PROVISIONAL_KNOWN or clause in common.known_clauses(ctx.prop)):
+            cov["clause_hits_identity_to_mutates_receiver"] = cov.get("clause_hits_identity_to_mutates_receiver", 0) + 1
+            common.known_finding(ctx, clause, (common.known_clauses(ctx.prop).get(clause) or {}).get("what") or
+                                 (PROVISIONAL_KNOWN[clause][:300] + f" [history {small} on pool kind {f['kind']}]"))
+            continue
         common.violation(ctx, {"history": small, "kind": f["kind"], "failure": ff or first, "original_history": f["history"],
                                "replay": "./check C18 quick --replay <this file>"})
     return agg
@@ -922,6 +1149,25 @@ def own_verdict(value):
     return bool(definitely_dynamic(value) or any(map(is_array, np_fns.tree_flatten(value)[0])))
 
 
+def own_table(cls):
+    """does the class have a `_dynamic` table OF ITS OWN (the copy AutoRegisteringPyTree.__init__ makes per class)?  The recorded
+    finding first-instance-representative is about exactly this situation: the verdict was reached on an earlier instance of the
+    SAME (parametrised) class.  A table shared with another class (a base class, the un-parametrised kind, a sibling) is a
+    different defect and is never matched to the recorded finding."""
+    tab = vars(cls).get("_dynamic")
+    if tab is None:
+        return False
+    seen = [LinearOperator]
+    todo = [LinearOperator]
+    while todo:
+        c = todo.pop()
+        for d in c.__subclasses__():
+            if d not in seen:
+                seen.append(d)
+                todo.append(d)
+    return not any(c is not cls and vars(c).get("_dynamic") is tab for c in seen)
+
+
 def attr_mismatches(A, seen=None, path=""):
     """(class, attribute, registry verdict, this instance's verdict) wherever they differ, for the
     operator and every operator nested in it: the clause `first-instance-representative`"""
@@ -934,7 +1180,8 @@ def attr_mismatches(A, seen=None, path=""):
         reg = type(A)._dynamic.get(k)
         mine = own_verdict(v)
         if reg != mine:
-            out.append({"class": type(A).__name__, "attr": path + k, "registry": reg, "instance": mine})
+            out.append({"class": type(A).__name__, "attr": path + k, "registry": reg, "instance": mine,
+                        "own_table": own_table(type(A))})
         stack = [v]
         while stack:
             x = stack.pop()
@@ -1192,7 +1439,17 @@ def part_bc(ctx, cov, specs=None):
     # correspondence of the registry model first: Lean's leaves = the real leaves, object by object
     cases = [{"id": ri, "log": res["log"], "rank": res.get("rank", []), "query": [r["obj"] for r in res["real"].values()]}
              for ri, res in enumerate(results) if res.get("log") and not res.get("error")]
-    ans = oracle.run_driver(cases, driver="DriverC18.lean", nproc=min(8, len(cases))) if cases else {}
+    ans = {}
+    if cases:
+        # never crash on a changed tree: a registry model that no longer builds / runs is "the model no longer covers the code"
+        try:
+            rc, out = common.lake_build(["ColaVerif.Model.Registry"])
+            if rc != 0:
+                raise RuntimeError("Model/Registry.lean (imported by DriverC18.lean) does not build:\n" + out[-1500:])
+            ans = oracle.run_driver(cases, driver="DriverC18.lean", nproc=min(8, len(cases)))
+        except Exception as ex:  # noqa: BLE001
+            cov["registry_model_driver_error"] = f"{type(ex).__name__}: {str(ex)[-800:]}"
+            ans = {}
     model_checked = model_bad = 0
     model_ok = set()       # (result index, operator name) on which model and real flatten agree
     for ri, res in enumerate(results):
@@ -1231,8 +1488,15 @@ def part_bc(ctx, cov, specs=None):
         bad = []
         for it in res["issues"]:
             if it["type"] == "leaves":
-                if it.get("attr_mismatch") and ((ri, it["op"]) in model_ok or not res.get("log")):
-                    known_hits.append((res["spec"], it))      # real = code model != spec: the modelled defect
+                own = bool(it.get("attr_mismatch")) and all(x.get("own_table") for x in it["attr_mismatch"])
+                if own and ((ri, it["op"]) in model_ok or not res.get("log")):
+                    # real = code model != spec on an input of exactly the recorded class: the verdict of the operator's OWN class
+                    # table, reached on an earlier instance of that same class, differs from this instance's (where the run was
+                    # recorded, the Lean registry model reproduces leaves and clause object by object: model_ok)
+                    known_hits.append((res["spec"], it))
+                elif it.get("attr_mismatch") and not own:
+                    bad.append(dict(it, what="registry verdict comes from a `_dynamic` table SHARED with another class — not the "
+                                             "recorded finding first-instance-representative (per-class table fixed by its own first instance)"))
                 elif it.get("attr_mismatch"):
                     pass                                      # reported above (model disagreement)
                 elif it["array_params_missing_from_leaves"] == 0 and it["leaves_not_array_params"] == 0:
@@ -1284,9 +1548,48 @@ def run_translator(cov):
     cov["sites_by_scope"] = dict(Counter(r["scope"] for r in res["sites"]))
     cov["library_sites_by_provenance"] = dict(Counter(r["cls"] for r in lib))
     cov["library_sites_by_kind"] = dict(Counter(r["kind"] for r in lib))
+    need = [r for r in lib if r["cls"] in ("param", "unknown")]
+    cov["library_sites_needing_a_reason"] = len(need)
+    cov["library_sites_by_established_reason"] = dict(Counter(r.get("reason", "none") for r in need))
+    cov["library_reason_programs"] = {"caller_slices_ending_in_call": sum(len(r.get("reason_progs", [])) for r in need
+                                                                          if r.get("reason") in ("privateHelper", "primitive")),
+                                      "field_definition_slices": sum(len(r.get("reason_progs", [])) for r in need if r.get("reason") == "ownedField")}
+    cov["library_sites_without_reason"] = [{k: r[k] for k in ("file", "line", "func", "target", "reason", "reason_detail")}
+                                           for r in need if not site_reason_ok(r)]
     cov["cola_dir_scanned"] = res["base"]
     cov["site_table_changed_by_this_run"] = res["changed"]
     return res
+
+
+def site_reason_ok(r):
+    """Python mirror of Heap.Reason.holds (evidence only; Lean decides)"""
+    import scan_inplace_sites as tr
+    k = r.get("reason", "none")
+    if k in ("privateHelper", "primitive", "ownedField"):
+        return bool(r["reason_progs"]) and all(tr.py_writes_only_fresh(pr) for pr in r["reason_progs"])
+    if k == "writeOnlyField":
+        return r["reason_reads"] == 0
+    return k == "classLevel"
+
+
+def failing_theorems(gate_err):
+    """names of the theorems at the error positions of a lake / lean output (file:line:col: error …)"""
+    import re
+    names = []
+    for m in re.finditer(r"(ColaVerif/[\w/]+\.lean):(\d+):(\d+):\s*error", gate_err or ""):
+        path, line = os.path.join(common.LEAN_DIR, m.group(1)), int(m.group(2))
+        try:
+            src = open(path).read().split("\n")
+        except OSError:
+            continue
+        for k in range(min(line, len(src)) - 1, -1, -1):
+            t = re.match(r"\s*(?:private\s+)?(?:theorem|lemma|def|example)\s+(\S+)?", src[k])
+            if t:
+                nm = f"{t.group(1) or 'example'} ({m.group(1)}:{line})"
+                if nm not in names:
+                    names.append(nm)
+                break
+    return names
 
 
 def module_gate(ctx):
@@ -1320,7 +1623,14 @@ def run(ctx):
         replay(ctx)
         return
     cov = {}
-    tr = run_translator(cov)
+    translator_error = None
+    try:
+        tr = run_translator(cov)
+    except Exception:  # noqa: BLE001  (a module of the changed tree the scanner cannot analyse)
+        import traceback
+        translator_error = traceback.format_exc()[-2500:]
+        tr = {"sites": [], "base": None, "changed": False}
+        cov["translator_error"] = translator_error
     gate = None
     gate_error = None
     try:
@@ -1343,13 +1653,24 @@ def run(ctx):
               + gate_error[-1500:], flush=True)
     agg = part_a(ctx, cov)
     model_bad = part_bc(ctx, cov)
+    for what, err in (("the translator scan_inplace_sites.py failed on the current tree: the site table (hypothesis of C18_sites) could "
+                       "not be regenerated", translator_error),
+                      ("DriverC18.lean (registry model) is unavailable: real flatten was not compared with the model",
+                       cov.get("registry_model_driver_error"))):
+        if err and not ctx.violations:
+            common.violation(ctx, {"broken": what + "; the byte-comparison search found no failing history", "error": err}, no_input=True)
     if gate_error is not None:
-        bad_sites = [r for r in tr["sites"] if r["scope"] == "library" and r["cls"] in ("param", "unknown")]
+        bad_sites = [r for r in tr["sites"] if r["scope"] == "library" and r["cls"] in ("param", "unknown") and not site_reason_ok(r)]
         cov["gate_error"] = gate_error[-600:]
+        unchecked = failing_theorems(gate_error)
+        cov["theorems_that_no_longer_check"] = unchecked
         if not ctx.violations:
-            common.violation(ctx, {"broken": "Lean gate of ColaVerif.Properties.C18 failed and the byte-comparison search found no failing history",
+            common.violation(ctx, {"broken": "Lean gate of ColaVerif.Properties.C18 failed (the property is no longer shown to hold: "
+                                             + (", ".join(unchecked) or "see error") + ") and the byte-comparison search found no failing history",
+                                   "theorems_that_no_longer_check": unchecked,
                                    "error": gate_error[-1500:],
-                                   "non_fresh_library_sites": [{k: r[k] for k in ("file", "line", "func", "target", "cls", "chain")} for r in bad_sites]},
+                                   "library_sites_without_discipline_or_checked_reason":
+                                       [{k: r.get(k) for k in ("file", "line", "func", "target", "cls", "chain", "reason", "reason_detail")} for r in bad_sites]},
                              no_input=True)
     assumptions = [
         "C18_safe is about the buffer-event IR; the slice of each function (reaching definitions, loop states resolved through the init "
@@ -1359,8 +1680,15 @@ def run(ctx):
         "annotated LinearOperator are operators, not buffers",
         "registry model: classes and attribute names are numbers, tree_flatten's sorted(vars) is modelled by insertion order, "
         "find_device(fields) or fields['device'] is fields['device'] (NumPy: one device)",
-        "known clause first-instance-representative (PROVISIONAL_KNOWN): leaves = array parameters only when the first instance of the "
-        "(parametrised) class had arrays in the same attributes",
+        "known clause first-instance-representative (known_findings.json): leaves = array parameters only when the first instance of the "
+        "(parametrised) class had arrays in the same attributes; matched only when the mismatching verdict sits in the class's OWN "
+        "`_dynamic` table (a table shared between classes is reported as a violation)",
+        "provisional clause identity-to-mutates-receiver (PROVISIONAL_KNOWN): Identity.to(device) stores into the receiver",
+        "a private helper = a top-level function that is not decorated @export, not in __all__, never imported by name, and referenced "
+        "only as the callee of direct calls in its own module (Python has no privacy: a user can still import it from its module)",
+        "write-only attribute (`info`) / constructor-owned containers (`kwargs`, `info`): the mutation of such private state of an "
+        "operator cola built is NOT counted as a change of the operator's value (the snapshots skip them); what is checked "
+        "mechanically is that no library code reads the attribute, resp. that every object ever stored in the field was allocated by cola",
         "attributes `info` (log of the last iterative run) and kwargs['start_vector'] of LanczosUnary/ArnoldiUnary are not part of an operator's value",
         "run_householder_arnoldi raises on every input (permute of a 2-D array with 3 axes): use_householder=True paths are exercised up to the exception only",
     ]
